@@ -2691,6 +2691,8 @@ class OpConcat:
         o = {'op': 'concatenate', 'arrays': arrs, 'axis': axarg(rng, A, i), 'copy': rng.random() < 0.7}
         if len(set(arrs)) != len(arrs):
             o['copy'] = True        # copy=False with a repeated operand makes two blocks of the result one ndarray (unspecified aliasing)
+        if getattr(env, 'strict_alias', False) and len({env.slots[b].group for b in arrs}) != len(arrs):
+            o['copy'] = True        # ... and so do two operands that are shallow copies of each other (program key `strict_alias`)
         if i == 0 and not malformed and ext_p(env, 0.4):
             o.update(axis=0, copy=True, defaults=True)      # default arguments axis=0, copy=True
         if malformed:
@@ -2725,6 +2727,9 @@ class OpGridConcat:
         i, j = rng.sample(range(A.rank), 2)
         same = [b for b, s in enumerate(env.slots) if s.ref.rank == A.rank and np.array_equal(A.qtotal, s.ref.qtotal) and
                 all(A.legs[k].equal(s.ref.legs[k], env.mods) for k in range(A.rank))]
+        if getattr(env, 'strict_alias', False):
+            # legs that are equal as charge data but stored with the opposite qconj: which of the two equivalent forms the result takes is not documented
+            same = [b for b in same if all(A.legs[k].qconj == env.slots[b].ref.legs[k].qconj for k in range(A.rank))]
         n0, n1 = rng.choice([1, 2]), rng.choice([1, 2, 3])
         grid = [[rng.choice(same) if rng.random() < 0.75 else None for _ in range(n1)] for _ in range(n0)]
         for r in range(n0):
@@ -2736,8 +2741,8 @@ class OpGridConcat:
         o = {'op': 'grid_concat', 'grid': grid, 'axes': [i, j], 'a': a}
         if getattr(env, 'ext', False):
             used = [g for row in grid for g in row if g is not None]
-            if len(set(used)) == len(used) and env.xr.random() < 0.5:
-                o['copy'] = False       # (a repeated entry with copy=False would make two blocks of the result one ndarray)
+            if len({env.slots[g].group for g in used}) == len(used) and env.xr.random() < 0.5:
+                o['copy'] = False       # (a repeated entry / two shallow copies with copy=False would make two blocks of the result one ndarray)
             if env.xr.random() < 0.4 and all(env.slots[g].ref.labels == A.labels for g in used):
                 o['axes'] = [axarg(env.xr, A, i), axarg(env.xr, A, j)]      # documented: `axes` are leg labels or indices
         return o
@@ -2788,6 +2793,9 @@ class OpGridOuter:
         A = env.slots[a].ref
         same = [b for b, s in enumerate(env.slots) if s.ref.rank == A.rank and np.array_equal(A.qtotal, s.ref.qtotal) and
                 all(A.legs[k].equal(s.ref.legs[k], env.mods) for k in range(A.rank))]
+        if getattr(env, 'strict_alias', False):
+            # legs that are equal as charge data but stored with the opposite qconj: which of the two equivalent forms the result takes is not documented
+            same = [b for b in same if all(A.legs[k].qconj == env.slots[b].ref.legs[k].qconj for k in range(A.rank))]
         two = rng.random() < 0.4 and A.rank <= env.maxrank - 2
         shape = [rng.randint(1, 3)] + ([rng.randint(1, 2)] if two else [])
         base = [rand_charge(rng, env.mods) for _ in shape]
@@ -2880,6 +2888,9 @@ class OpGridOuter:
                 raise ExpectError('ValueError', 'IndexError')
             D[idx] = E.dense
         labels = (o['grid_labels'] or [None] * len(shape)) + list(E0.labels)
+        labs = [x for x in labels if x is not None]
+        if len(set(labs)) != len(labs):
+            raise ExpectError('ValueError')     # a grid label that the first entry already carries (labels of the entries may differ from those of slot `a`)
         return {'new': [RTensor(D, legs + list(E0.legs), labels, qt)], 'qtotal_rule': 'sum-with-leg-charge'}
 
     @staticmethod
@@ -3285,6 +3296,8 @@ class ProgramRunner:
         #  p_missing:     choices for the probability that an allowed block of an initial tensor is not stored (default: see OpInit.gen_from)
         #  op_weights:    see gen_step
         self.env.p_missing = prog.get('p_missing')
+        #  strict_alias:  concatenate(copy=False) is not generated for operands that share their blocks (shallow copies of each other)
+        self.env.strict_alias = bool(prog.get('strict_alias', False))
         #  ext:           (C01 coverage audit) the operations of harness/c01_ext.py and the wider option spaces marked `ext_p` / `env.ext` in this
         #                 file take part; continuation on results over another ChargeInfo; second accessors compared; coverage statistics `api:` / `opt:`
         self.ext = bool(prog.get('ext', False))
@@ -3791,7 +3804,7 @@ class ProgramRunner:
 
 
 def make_program(rng, tier='quick', record_coq=0, p_chain=0.0, keep_flagged=False, rich=False, sparse_values=False, op_weights=None, p_missing=None,
-                 ext=False, leg_style=None):
+                 ext=False, leg_style=None, strict_alias=False):
     """program header (charge structure, leg pool, length); the steps are generated while running.
     p_chain / keep_flagged: see ProgramRunner.__init__ (not drawn from rng; absent from the header when off);
     rich: at least one charge, legs from gen_leg_rich, fewer missing blocks (tensors with several stored blocks);
@@ -3825,6 +3838,8 @@ def make_program(rng, tier='quick', record_coq=0, p_chain=0.0, keep_flagged=Fals
         prog['p_missing'] = list(p_missing)
     if ext:
         prog['ext'] = True
+    if strict_alias:
+        prog['strict_alias'] = True
     return prog
 
 
